@@ -115,9 +115,10 @@ def environment(tree, base_dir=None):
                         todo.append(r[1])
             if e[1] == "schema" and a.get("extends") and base_dir is not None:
                 for src in a["extends"].split():
-                    if src in bases or "#" in src:
+                    # a reference with a fragment is refused before anything is opened; an EMPTY fragment ('x.xml#') is none
+                    if src in bases or src.partition("#")[2]:
                         continue
-                    p = os.path.join(base_dir, src)
+                    p = os.path.join(base_dir, src.partition("#")[0])
                     if os.path.exists(p):
                         bt = parse_tree(open(p, encoding="utf-8").read())
                         if bt is not None:
